@@ -141,7 +141,7 @@ type spec struct {
 
 var ops = []string{"Select", "SelectDone", "SelectRowid", "IndexedSelect", "IndexedSelectEq", "PKSelect", "PKSelect-wr", "Columns", "Select-wr", "IndexedSelect-wr"}
 var exits = []string{"normal", "normal", "stop", "error-column", "error-table", "error-index", "fault", "panic"}
-var sideKinds = []string{"commit-attempt", "commit-attempt", "other-file-open-read-close", "peer-read", "peer-hold", "peer-release",
+var sideKinds = []string{"commit-attempt", "commit-attempt", "other-file-open-read-close", "peer-read", "peer-hold", "peer-hold-forgotten", "peer-hold-forgotten", "peer-release",
 	"same-process-open", "same-process-read", "same-process-close", "same-process-open-close", "probe", "same-handle-nested-call", "same-process-close-then-read", "gc", "gc", "open-while-writer-pending", "open-while-writer-pending", "driver-failed-query", "driver-failed-query", "driver-connect", "driver-connect"}
 
 func TestC06Held(t *testing.T) {
@@ -322,6 +322,28 @@ func run(r *vt.Run, t vt.TB, s spec) {
 					harness("peer hold: %v", err)
 				}
 				peerHolding = pr.Held && pr.Err == ""
+			}
+		case "peer-hold-forgotten":
+			// the reader in the other process is a one-shot helper: nothing
+			// refers to its handle once the select runs, nobody will close it,
+			// and the garbage collector runs inside its row callback. The read
+			// lock is that call's, not the handle variable's: it is still
+			// there when the callback has parked.
+			if !peerHolding {
+				pr, err := peer.call("hold-forgotten", path)
+				if err != nil {
+					harness("peer hold-forgotten: %v", err)
+				}
+				peerHolding = pr.Held && pr.Err == ""
+				if peerHolding {
+					classes["side:peer-parked-on-a-forgotten-handle"] = true
+					st, perr := probe.Probe(path)
+					if perr != nil {
+						harness("probe: %v", perr)
+					} else if !(st.Shared.Type == "read" && (st.Shared.Pid == peer.pid || st.Shared.Pid == mypid || st.Shared.Pid == env.O.Pid)) {
+						violation("lock-not-held:forgotten-handle", "%s: another process is inside the row callback of a Select whose handle nothing refers to any more, after two garbage collections there: the shared range is not read-locked (%s)", where, st)
+					}
+				}
 			}
 		case "peer-release":
 			if peerHolding {
